@@ -34,6 +34,11 @@ logger = get_logger(__name__)
 # Kept in sync with garbage_collector.INFLIGHT_PATH.
 _INFLIGHT_PATH = "metadata/inflight"
 
+# What append_data() hands to append_files() for the data file it has just
+# written itself (its statistics were computed from the very table that was
+# written). An object, not a value: nothing a caller passes equals it.
+_STATISTICS_COMPUTED_HERE = object()
+
 
 class Transaction:
     """Represents a database transaction with ACID properties"""
@@ -87,7 +92,7 @@ class Transaction:
         return self._is_active and not self._is_committed and not self._is_rolled_back
 
     def append_files(
-        self, files: List[DataFile], _statistics_computed_here: bool = False
+        self, files: List[DataFile], _statistics_computed_here: Any = None
     ) -> "Transaction":
         """Queue pre-built data files to append to the table.
 
@@ -100,6 +105,12 @@ class Transaction:
         file pruning skips a file whose bounds exclude the filter, so wrong
         bounds make filtered scans silently drop rows the table holds. They are
         recomputed from the file's content (see _with_verified_bounds).
+
+        _statistics_computed_here is not part of the interface: only the token
+        append_data() passes for the file it has just written skips the
+        verification. No value a caller can write (True, 1, ...) does - the
+        flag used to be a plain bool, and append_files(files,
+        _statistics_computed_here=True) stored the caller's bounds as given.
         """
         if not self.is_active():
             raise RuntimeError("Transaction is not active")
@@ -125,7 +136,7 @@ class Transaction:
             if table_schema is not None:
                 self._validate_file_schema(data_file, table_schema)
 
-        if not _statistics_computed_here:
+        if _statistics_computed_here is not _STATISTICS_COMPUTED_HERE:
             files = [self._with_verified_bounds(f, table_schema) for f in files]
         self._protect_adopted_files(files)
 
@@ -520,7 +531,7 @@ class Transaction:
 
         # Queue the newly created file for appending (its bounds were computed
         # from the very table that was written: nothing to verify)
-        self.append_files([updated_data_file], _statistics_computed_here=True)
+        self.append_files([updated_data_file], _statistics_computed_here=_STATISTICS_COMPUTED_HERE)
 
         return self
 
